@@ -202,6 +202,23 @@ def run(c):
             shown += 1
             c.report("recalculating a payment changes it at %s" % v[0][2].decode(), {"payment": p, "result": f,
                      "clause": "serialising the result, parsing it back and calculating again yields byte-identical JSON"})
+    # ---- history independence: the same workloads (examples, synthetic invoices per regime / addon / rate key incl. the
+    # legacy spellings found in the regimes' own files) calculated in a seeded order and in the reverse order, each in a
+    # fresh process: a document's calculated JSON must not depend on what the process calculated before it
+    eq = {}
+    for mode in ("fwd", "rev"):
+        p_ = subprocess.run([os.path.join(BIN, "vharness"), "c15equiv", REPO, str(c.seed), "40", mode], stdout=subprocess.PIPE, stderr=subprocess.PIPE,
+                            text=True, env=GOENV, timeout=1800)
+        eq[mode] = dict(l.split("\t", 1) for l in p_.stdout.splitlines() if "\t" in l)
+    nd = 0
+    for k_ in sorted(eq["fwd"]):
+        c.count("history-independence", 1, k_)
+        if eq["fwd"][k_] != eq["rev"].get(k_):
+            nd += 1
+            if nd <= 3:
+                c.report("the calculated result of %s depends on which documents the process calculated before it (%s / %s)" % (k_, eq["fwd"][k_], eq["rev"].get(k_)),
+                         {"workload": k_, "clause": "byte-identical JSON regardless of process, repetition or map iteration order",
+                          "rerun": "for m in fwd rev; do bin/vharness c15equiv %s %d 40 $m | grep -F '%s'; done" % (REPO, c.seed, k_)})
     # ---- process / GOMAXPROCS independence (sampling) ----
     sample = [d for _, d in exs if True][: (60 if quick else 10 ** 6)] + [json.dumps(d).encode() for d in docs[: (200 if quick else 5000)]]
     lines = ["c04 build " + w(d) for d in sample]
